@@ -247,8 +247,11 @@ func (a *analyzer) scope(ss ast.SelectionSet, parent *ast.Definition, depth int,
 		}
 		if f.Alias != f.Name {
 			a.set["op.aliases"] = true
-			if f.Alias == "id" || f.Alias == "__typename" || f.Alias == "node" {
+			if f.Alias == "id" || f.Alias == "__typename" {
 				a.set["op.aliasIsHelperName"] = true
+			}
+			if f.Alias == "node" {
+				a.set["op.aliasNode"] = true // the key of the gateway's own lookups; no defect known
 			}
 			if f.Name == "id" {
 				a.set["op.idAliased"] = true
